@@ -20,6 +20,11 @@ BUILTIN_EXCS = [ValueError, KeyError, ZeroDivisionError, TypeError, AttributeErr
 PLAN = {'pos': None}
 
 
+class _Weird(object):
+    def __repr__(self):
+        return '<weird "object" & co>'
+
+
 def _glom_stub(target, spec, skip_exc=None, **kw):
     """clastic.errors uses glom only as `glom(self, T.exc_info.to_dict(), skip_exc=Exception)`.  glom's ScopeVars does
     `self.__dict__ = dict(base)`, which CrossHair's dict interception breaks (ShellMutableMap) - a tool artefact.
@@ -59,6 +64,14 @@ def act(pos):
         raise exc
     if kind == 5:
         return Response('early', status=[200, 201, 302, 503][k % 4])
+    if kind in (6, 7):
+        # an application error whose fields are not JSON-native (the repr fallback of the error encoder must cope)
+        # (detail stays text: HTTPException documents it as a string and cannot be constructed otherwise)
+        exc = E.BadRequest('d', error_type=_Weird() if k % 2 == 0 else 'http://x/{y}', message=[_Weird(), 'M'][(k // 2) % 2])
+        PLAN['obj'] = exc
+        if kind == 6:
+            raise exc
+        return exc
     return _NOTHING
 
 
@@ -117,8 +130,13 @@ class _OtherErrorEH(ErrorHandler):
         return ImATeapot()
 
 
+class _RaisingOtherEH(ErrorHandler):
+    def render_error(self, request, _error):
+        raise E.ServiceUnavailable('the error renderer is unavailable')
+
+
 def _handler(i):
-    return [ErrorHandler(), ContextualErrorHandler(), ErrorHandler(reraise_uncaught=True), _BrokenRenderEH(), _OtherErrorEH()][i]
+    return [ErrorHandler(), ContextualErrorHandler(), ErrorHandler(reraise_uncaught=True), _BrokenRenderEH(), _OtherErrorEH(), _RaisingOtherEH()][i]
 
 
 class _CheapTB(object):
@@ -156,8 +174,8 @@ def _mk_app(i, cheap=False):
     return Application([Route('/x', ep, rn), Route('/nr', ep_norender), GET('/getonly', ep_norender)], middlewares=[PlanMW()], error_handler=eh)
 
 
-APPS = [_mk_app(i, True) for i in range(5)]
-APPS_REAL = [_mk_app(i) for i in range(5)]
+APPS = [_mk_app(i, True) for i in range(6)]
+APPS_REAL = [_mk_app(i) for i in range(6)]
 ACCEPTS = ('text/plain', 'text/html', 'application/json')
 REQ_X = [Request(EnvironBuilder(path='/x', headers={'Accept': a}).get_environ()) for a in ACCEPTS]
 REQ_NR = [Request(EnvironBuilder(path='/nr', headers={'Accept': a}).get_environ()) for a in ACCEPTS]
@@ -180,6 +198,8 @@ def expected(pos_i, kind, k, handler_i):
         return ('error', CODES[k % len(CODES)])
     if kind == 4:
         return ('error', [404, 403][k % 2])
+    if kind in (6, 7):
+        return ('error', 400)
     if kind == 5:
         return ('response', [200, 201, 302, 503][k % 4])
     # kind 3: a non-Response value
@@ -228,7 +248,7 @@ def ob_k12(pos_i: int, handler_i: int, kk: int, acc: int, k: int) -> bool:
 
 
 def ob_k345(pos_i: int, handler_i: int, kk: int, acc: int, k: int) -> bool:
-    """kinds 3/4/5: non-Response value, non-breaking error, early Response"""
+    """kinds 3/4/5: non-Response value, non-breaking error, early Response; 6/7: error with non-JSON-native fields"""
     with untraced():
         return _complete(pos_i, 3 + kk, k, 0, handler_i, True, acc)
 
@@ -286,8 +306,8 @@ def _complete(pos_i, kind, k, msg_i, handler_i, real_ei, acc):
     if out.status_code != want[1]:
         return False
     body = out.get_data(True)
-    if handler_i == 3:
-        return ('%s' % want[1]) in body          # default rendering of the same error
+    if handler_i in (3, 5):
+        return ('%s' % want[1]) in body          # a failing renderer: default rendering of the SAME error
     return len(body) > 0 and ('%s' % want[1]) in body
 
 
